@@ -37,6 +37,9 @@ func c17Alphabet() []cop {
 		add("out{P2,P1@k}", kit.Reg{Life: sg, ResObj: true, Outs: []kit.Out{{T: "P2"}, {T: "P1", Key: "k"}}}),
 		add("D0-as-IA", kit.Reg{Life: sg, Outs: []kit.Out{{T: "D0"}}, As: []string{"IA"}}),
 		add("P2-as-IA+IB", kit.Reg{Life: "transient", Outs: []kit.Out{{T: "P2"}}, As: []string{"IA", "IB"}}),
+		add("(P2,P2)", kit.Reg{Life: sg, Outs: []kit.Out{{T: "P2"}, {T: "P2"}}}),
+		add("D0-as-IA+IA", kit.Reg{Life: sg, Outs: []kit.Out{{T: "D0"}}, As: []string{"IA", "IA"}}),
+		add("out{P1,P1}", kit.Reg{Life: sg, ResObj: true, Outs: []kit.Out{{T: "P1"}, {T: "P1"}}}),
 		add("inst-P1", kit.Reg{Life: sg, Kind: "instance", Outs: []kit.Out{{T: "P1"}}}),
 		add("bad-name+group", kit.Reg{Life: sg, Outs: []kit.Out{{T: "P2"}}, Name: "k", Group: "g"}),
 		add("bad-backquote", kit.Reg{Life: sg, Outs: []kit.Out{{T: "P2"}}, Name: "a`b"}),
@@ -327,7 +330,7 @@ func c17RunHistory(h []cop, post *cop, withBuild bool) []Finding {
 
 func c17Search(r *mc.Report, depth int, first int) {
 	alpha := c17Alphabet()
-	posts := []int{0, 4, 9, 14, 15, 3}
+	posts := []int{0, 4, 9, 17, 18, 3}
 	if r.Only != nil {
 		var c c17Case
 		if json.Unmarshal(r.Only, &c) != nil || len(c.Hist) == 0 || c.Hist[0].Name != alpha[first].Name {
@@ -388,9 +391,9 @@ var _ = reflect.TypeOf
 
 func init() {
 	mc.Register(&mc.Check{
-		Prop: "C17",
-		Rule: "every sequence to depth 3 (quick) / 4 (thorough) over a 20-operation alphabet {Add{Singleton,Scoped,Transient} of 14 forms over a 6-type pool (plain, keyed, grouped, two-return colliding / not colliding, result objects colliding at their second field, aliases, instance values, invalid option combinations), Remove x3, RemoveKeyed x2, AddModules}; after every step Contains / ContainsKeyed / Count / ToSlice are compared with the reference registry and a rejected call must leave the deep dump of the collection unchanged; in every state the collection is Built (Build must not change the dump), no constructor of a removed / rejected registration may have run, the whole identity universe is probed against the model, then one of 6 further mutations is applied to the collection and the SAME provider must answer identically. distinct = distinct first operations x depth (states counted separately).",
-		Assume:      []string{"Count/ToSlice count one entry per registered identity (a two-return constructor contributes two)", "the analyzer cache and the mutex are excluded from the dump (not observable)"},
+		Prop:   "C17",
+		Rule:   "every sequence to depth 3 (quick) / 4 (thorough) over a 23-operation alphabet {Add{Singleton,Scoped,Transient} of 17 forms (incl. registrations that collide with themselves) over a 6-type pool (plain, keyed, grouped, two-return colliding / not colliding, result objects colliding at their second field, aliases, instance values, invalid option combinations), Remove x3, RemoveKeyed x2, AddModules}; after every step Contains / ContainsKeyed / Count / ToSlice are compared with the reference registry and a rejected call must leave the deep dump of the collection unchanged; in every state the collection is Built (Build must not change the dump), no constructor of a removed / rejected registration may have run, the whole identity universe is probed against the model, then one of 6 further mutations is applied to the collection and the SAME provider must answer identically. distinct = distinct first operations x depth (states counted separately).",
+		Assume: []string{"Count/ToSlice count one entry per registered identity (a two-return constructor contributes two)", "the analyzer cache and the mutex are excluded from the dump (not observable)"},
 		Jobs: func(tier string) []mc.Job {
 			depth := 3
 			if tier == "thorough" {
